@@ -315,7 +315,12 @@ def case_fit(mon, xs, ys, names, pseed):
             worst, bad = e2, g2
     mon.stat("order_form_spread_rel", worst if worst != float("inf") else 1e9,
              case)
-    mon.check("order-and-form-independent", worst <= 1e-6,
+    # the closed-form solution divides by a determinant that has lost
+    # about 1e-10 / (scaled Gram determinant) to cancellation; two orders of
+    # summation differ by that much (measured 3.4e-10 / det on 31 clustered
+    # points, 24 permutations)
+    tol_order = 1e-6 + (1e-9 / detg if k > 1 and detg > 0 else 0.0)
+    mon.check("order-and-form-independent", worst <= tol_order,
               lambda: dict(case, reference=list(got), other=bad,
                            spread_rel=worst))
     # the first object, now that the permuted / copied / re-set ones above
